@@ -46,6 +46,13 @@ type Config struct {
 	MaxSteps int64 // abort the run (harness error) beyond this many yields; 0 = 50M
 	Valve    int64 // force a switch after this many yields without one; 0 = 20000
 	Trace    int   // keep the last Trace log entries for reports
+	// SpinSleep > 0: a task stopped by the valve (it ran Valve yields without blocking, i.e. it
+	// busy-waits, like subscribe.send polling a full channel) is put to sleep on the fake clock
+	// (SpinSleep, doubling per consecutive hit up to 128x) before it is made ready again; only
+	// after spinAfter consecutive valve periods without ever blocking, so computations are left alone.
+	// Without it simulated time cannot advance while a task spins waiting for a timer-driven
+	// peer. 0 keeps the plain behaviour (preempt only).
+	SpinSleep time.Duration
 }
 
 const (
@@ -63,8 +70,10 @@ type Task struct {
 	g     uintptr
 	wake  chan struct{}
 	state atomic.Int32
+	site  int
 	low   bool // the world task: runs only when nothing else is ready
 	prio  int
+	spins int // consecutive valve hits (Config.SpinSleep)
 	sim   *Sim
 
 	Finished   bool
@@ -108,8 +117,12 @@ type Sim struct {
 	pctPoints   []int64
 	pctLow      int
 	Adopted     int
+	valveHit    bool
+	timerSeq    int64
 	Panics      []PanicInfo
 	Overrun     bool
+	// OverrunStack is the stack of the task that was running when the step budget ran out.
+	OverrunStack string
 
 	digest  uint64
 	logN    int64
@@ -120,6 +133,8 @@ type Sim struct {
 	IOHook func(ev *IOEvent) IOAction
 	ioSeq  int64
 
+	syncTasks int32 // race annotations only: tasks release here, the world acquires
+	syncWorld int32 // the world releases here, resuming tasks acquire
 	nodeLocal sync.Map // key nlKey -> interface{}
 	world     *World
 	start     time.Time
@@ -133,6 +148,7 @@ func Active() bool { return cur.Load() != nil }
 // Current returns the running simulation or nil.
 func Current() *Sim { return cur.Load() }
 
+//go:norace
 func (s *Sim) logf(kind string, a, b int64, str string) {
 	// FNV-1a over the entry; never draws, never reads a clock.
 	h := s.digest
@@ -167,11 +183,19 @@ func (s *Sim) logf(kind string, a, b int64, str string) {
 
 // Log appends an entry to the run's event log (hashed into the digest). It must be
 // called by the token holder or the world only.
+//go:norace
 func Log(kind string, a, b int64, str string) {
 	if s := cur.Load(); s != nil {
+		raceOff()
 		s.logf(kind, a, b, str)
+		raceOn()
 	}
 }
+
+// RaceOff / RaceOn let the simulated disk and the harness hide their own bookkeeping
+// locks from the race detector (no-ops outside the -race build).
+func RaceOff() { raceOff() }
+func RaceOn()  { raceOn() }
 
 // Digest returns the event-log digest so far.
 func (s *Sim) Digest() uint64 { return s.digest }
@@ -191,6 +215,7 @@ func (s *Sim) TraceTail() []string {
 	return out
 }
 
+//go:norace
 func (s *Sim) newTask(name string, node int, low bool) *Task {
 	s.mu.Lock()
 	t := &Task{ID: len(s.tasks), Name: name, Node: node, wake: make(chan struct{}, 1), low: low, sim: s}
@@ -203,6 +228,7 @@ func (s *Sim) newTask(name string, node int, low bool) *Task {
 	return t
 }
 
+//go:norace
 func (s *Sim) bind(t *Task) {
 	g := getg()
 	t.g = g
@@ -211,6 +237,7 @@ func (s *Sim) bind(t *Task) {
 	s.mu.Unlock()
 }
 
+//go:norace
 func (s *Sim) unbind(t *Task) {
 	s.mu.Lock()
 	if s.byG[t.g] == t {
@@ -220,6 +247,7 @@ func (s *Sim) unbind(t *Task) {
 }
 
 // self returns the task of the calling goroutine (nil if unmanaged).
+//go:norace
 func (s *Sim) self() *Task {
 	g := getg()
 	if t := s.current.Load(); t != nil && t.g == g {
@@ -231,12 +259,20 @@ func (s *Sim) self() *Task {
 	return t
 }
 
+//go:norace
 func (t *Task) dead() bool {
 	return int64(t.epoch) != t.sim.nodeEpoch[t.Node&63].Load()
 }
 
 // park registers the calling task as ready and blocks until it is given the token.
+//go:norace
 func (s *Sim) park(t *Task) {
+	// callers hold exactly one raceOff()
+	if t.low {
+		raceRelease(&s.syncWorld)
+	} else {
+		raceRelease(&s.syncTasks)
+	}
 	if s.current.Load() == t {
 		s.current.Store(nil)
 	}
@@ -246,17 +282,25 @@ func (s *Sim) park(t *Task) {
 	default:
 	}
 	<-t.wake
+	if t.low {
+		raceAcquire(&s.syncTasks)
+	} else {
+		raceAcquire(&s.syncWorld)
+	}
 	if t.dead() && !t.low {
 		runtime.Goexit()
 	}
 }
 
 // Yield is a scheduling point. Instrumented code calls it before every statement.
+//go:norace
 func Yield(site int) {
 	s := cur.Load()
 	if s == nil {
 		return
 	}
+	raceOff()
+	defer raceOn()
 	g := getg()
 	t := s.current.Load()
 	if t != nil && t.g == g {
@@ -269,6 +313,30 @@ func Yield(site int) {
 			return
 		}
 		s.logf("pre", int64(t.ID), int64(site), "")
+		if s.valveHit && s.cfg.SpinSleep > 0 && !t.low {
+			s.valveHit = false
+			// t.spins = consecutive valve hits without the task ever blocking in between (reset by
+			// the scheduler when it sees the token holder blocked natively). A computation, however
+			// long, is left alone for spinAfter valve periods; beyond that the task is busy-waiting.
+			t.spins++
+			if t.spins > spinAfter {
+				k := t.spins - spinAfter - 1
+				if k > 7 {
+					k = 7
+				}
+				d := s.cfg.SpinSleep << uint(k)
+				s.logf("spin", int64(t.ID), int64(d), "")
+				s.current.Store(nil)
+				select {
+				case s.kick <- struct{}{}:
+				default:
+				}
+				time.Sleep(d) // from here on this goroutine does not hold the token: touch nothing shared
+				s.park(t)
+				return
+			}
+		}
+		s.valveHit = false
 		s.park(t)
 		return
 	}
@@ -291,8 +359,12 @@ func Yield(site int) {
 	s.park(t)
 }
 
+//go:norace
 func (s *Sim) wantPreempt(t *Task) bool {
 	if s.Steps > s.maxSteps() {
+		if !s.Overrun {
+			s.OverrunStack = string(debug.Stack())
+		}
 		s.Overrun = true
 		panic(overrun{})
 	}
@@ -301,6 +373,7 @@ func (s *Sim) wantPreempt(t *Task) bool {
 		valve = 20000
 	}
 	if s.Steps-s.lastSwitch > valve {
+		s.valveHit = true
 		return true
 	}
 	switch s.cfg.Policy {
@@ -320,8 +393,12 @@ func (s *Sim) wantPreempt(t *Task) bool {
 	return false
 }
 
+// spinAfter: valve periods a task may compute without blocking before Config.SpinSleep applies.
+const spinAfter = 8
+
 type overrun struct{}
 
+//go:norace
 func (s *Sim) maxSteps() int64 {
 	if s.cfg.MaxSteps > 0 {
 		return s.cfg.MaxSteps
@@ -329,6 +406,7 @@ func (s *Sim) maxSteps() int64 {
 	return 50_000_000
 }
 
+//go:norace
 func (s *Sim) drawGap() {
 	mean := s.cfg.MeanGap
 	if mean <= 0 {
@@ -343,33 +421,43 @@ func (s *Sim) drawGap() {
 }
 
 // Go starts f as a new task of the calling task's node (instrumented `go` statements).
+//go:norace
 func Go(site int, f func()) {
 	s := cur.Load()
 	if s == nil {
 		go f()
 		return
 	}
+	raceOff()
 	node := 0
 	name := "go"
 	if p := s.self(); p != nil {
 		node = p.Node
 		if p.dead() && !p.low {
+			raceOn()
 			return
 		}
 	}
-	t := s.newTask(fmt.Sprintf("%s@%d", name, site), node, false)
+	t := s.newTask(name, node, false)
+	t.site = site
 	s.logf("go", int64(t.ID), int64(site), "")
+	raceOn()
+	// the go statement itself must be visible to the race detector: it is the
+	// happens-before edge from the creator to the new goroutine
 	go s.runTask(t, f)
 }
 
 func (s *Sim) runTask(t *Task, f func()) {
+	raceOff()
 	s.bind(t)
 	defer s.endTask(t)
 	s.park(t)
+	raceOn()
 	f()
-	t.Finished = true
+	t.Finished = true // endTask takes its own raceOff
 }
 
+//go:norace
 func (s *Sim) endTask(t *Task) {
 	if r := recover(); r != nil {
 		if _, ok := r.(overrun); !ok {
@@ -380,6 +468,8 @@ func (s *Sim) endTask(t *Task) {
 			s.mu.Unlock()
 		}
 	}
+	raceOff()
+	raceRelease(&s.syncTasks)
 	s.unbind(t)
 	t.state.Store(stDone)
 	if s.current.Load() == t {
@@ -407,7 +497,7 @@ func AfterFunc(d time.Duration, f func()) *time.Timer {
 	// fire at the same simulated instant start their goroutines concurrently, and ids taken
 	// at that moment would depend on the real-time race between them.
 	t := s.newTask("afterfunc", node, false)
-	return time.AfterFunc(d, func() {
+	return time.AfterFunc(uniq(d), func() {
 		s2 := cur.Load()
 		if s2 != s || s.stopped.Load() {
 			return
@@ -421,7 +511,9 @@ func AfterFunc(d time.Duration, f func()) *time.Timer {
 }
 
 // loop is the scheduler goroutine.
+//go:norace
 func (s *Sim) loop() {
+	raceOff()
 	defer close(s.schedDn)
 	var ready []*Task
 	for {
@@ -431,6 +523,7 @@ func (s *Sim) loop() {
 		}
 		if c := s.current.Load(); c != nil && c.state.Load() == stNative {
 			// the token holder blocked natively (or is the world sleeping): release the token
+			c.spins = 0
 			s.current.Store(nil)
 		}
 		ready = ready[:0]
@@ -459,6 +552,7 @@ func (s *Sim) loop() {
 	}
 }
 
+//go:norace
 func (s *Sim) choose(ready []*Task) *Task {
 	// killed tasks are flushed first, deterministically
 	for _, t := range ready {
@@ -487,6 +581,7 @@ func (s *Sim) choose(ready []*Task) *Task {
 
 // Kill marks every task of node as dead: parked ones exit when next scheduled,
 // running ones at their next yield or simulated I/O call.
+//go:norace
 func (s *Sim) Kill(node int) {
 	s.nodeEpoch[node&63].Add(1)
 	s.logf("kill", int64(node), 0, "")
@@ -500,21 +595,27 @@ func (s *Sim) Kill(node int) {
 func (s *Sim) Revive(node int) { s.logf("revive", int64(node), 0, "") }
 
 // NodeAlive reports whether the calling goroutine's task belongs to a live epoch.
+//go:norace
 func TaskDead() bool {
 	s := cur.Load()
 	if s == nil {
 		return false
 	}
+	raceOff()
+	defer raceOn()
 	t := s.self()
 	return t != nil && !t.low && t.dead()
 }
 
 // CurrentNode returns the node tag of the calling goroutine (0 outside a simulation).
+//go:norace
 func CurrentNode() int {
 	s := cur.Load()
 	if s == nil {
 		return 0
 	}
+	raceOff()
+	defer raceOn()
 	if t := s.self(); t != nil {
 		return t.Node
 	}
@@ -548,6 +649,7 @@ type World struct {
 // Run executes root inside a fresh synctest bubble under the token scheduler.
 func Run(t *testing.T, tape *Tape, cfg Config, root func(w *World)) (res RunResult) {
 	s := &Sim{Tape: tape, cfg: cfg, byG: make(map[uintptr]*Task)}
+	ResetTimerSeq()
 	defer func() {
 		if r := recover(); r != nil {
 			msg := fmt.Sprint(r)
@@ -571,7 +673,23 @@ func Run(t *testing.T, tape *Tape, cfg Config, root func(w *World)) (res RunResu
 		res.Overrun = s.Overrun
 		res.Trace = s.TraceTail()
 	}()
+	bubbleDone := make(chan struct{})
+	var bubblePanic interface{}
+	go func() {
+		defer close(bubbleDone)
+		defer func() { bubblePanic = recover() }()
+		s.bubble(t, tape, cfg, root, &res)
+	}()
+	<-bubbleDone
+	if bubblePanic != nil {
+		panic(bubblePanic)
+	}
+	return res
+}
+
+func (s *Sim) bubble(t *testing.T, tape *Tape, cfg Config, root func(w *World), resp *RunResult) {
 	synctest.Test(t, func(*testing.T) {
+		res := resp
 		// channels must be created inside the bubble to block durably
 		s.kick = make(chan struct{}, 1)
 		s.schedDn = make(chan struct{})
@@ -628,17 +746,22 @@ func Run(t *testing.T, tape *Tape, cfg Config, root func(w *World)) (res RunResu
 		s.current.Store(nil)
 		<-s.schedDn
 	})
-	return res
 }
 
 // Settle parks the world until no other task is ready at the current instant
 // (all other tasks are blocked or finished). Simulated time does not advance.
+//go:norace
 func (w *World) Settle() {
+	raceOff()
 	w.S.park(w.task)
+	raceOn()
 }
 
 // Sleep advances simulated time by d while the other tasks run, then settles.
+//go:norace
 func (w *World) Sleep(d time.Duration) {
+	raceOff()
+	defer raceOn()
 	s := w.S
 	if s.current.Load() == w.task {
 		s.current.Store(nil)
@@ -647,15 +770,19 @@ func (w *World) Sleep(d time.Duration) {
 	case s.kick <- struct{}{}:
 	default:
 	}
+	raceRelease(&s.syncWorld)
 	time.Sleep(d)
 	s.park(w.task)
 }
 
 // Spawn starts f as a task of the given node. It does not run until the world yields.
+//go:norace
 func (w *World) Spawn(node int, name string, f func()) *Task {
+	raceOff()
 	s := w.S
 	t := s.newTask(name, node, false)
 	s.logf("spawn", int64(t.ID), int64(node), name)
+	raceOn()
 	go s.runTask(t, f)
 	return t
 }
